@@ -408,9 +408,7 @@ def mark_loops(body, marks, what=''):
             raise ExtractionError('%s: loop#%d not present' % (what, k))
         sp = spans[k]
         if sp['kind'] == 'do':
-            # do BODY while (C);  ==>  { int dw_ = 1; while (LOOPHEAD && (dw_ || (C))) { dw_ = 0; BODY } }
-            # (equivalent also for `continue`, which jumps to the condition in both forms).  After the loop-rule havoc the
-            # 'first iteration' flag is unconstrained (dw_ && nondet), so both the body and the exit are explored from any INV state.
+            # do BODY while (C);  ==>  do { (void)LOOPHEAD; BODY } while (C);
             btxt = body[sp['body'][0]:sp['body'][1]]
             ctxt = body[sp['cond'][0]:sp['cond'][1]]
             roots, decls, calls, through = loop_frame(btxt + ' ; ' + ctxt + ';')
@@ -430,12 +428,10 @@ def mark_loops(body, marks, what=''):
             extra = roots - decls - frame
             if extra:
                 raise ExtractionError('%s: loop#%d assigns %s, not in the declared frame %s' % (what, k, sorted(extra), sorted(frame)))
-            semi = find_code_char(body, ';', sp['cond'][1])
-            inner = btxt.strip()
-            assert inner.startswith('{') and inner.endswith('}')
-            new_txt = ('{ int dw_%d = 1; while ( LOOPHEAD_%s && ((dw_%d = (dw_%d && nondet_bool())), 1) && (dw_%d || (%s)) ) { dw_%d = 0; %s } }'
-                       % (k, mk['name'], k, k, k, ctxt.strip(), k, inner[1:-1]))
-            edits.append((sp['kw'], semi + 1, new_txt))
+            # the invariant is attached to the START of the body: first arrival = base + arbitrary iteration, the condition
+            # (which may have side effects) is evaluated after the body, leading back here (step) or out of the loop (exit)
+            ob_ = sp['body'][0]
+            edits.append((ob_ + 1, ob_ + 1, ' (void)LOOPHEAD_%s; ' % mk['name']))
             continue
         btxt = body[sp['body'][0]:sp['body'][1]]
         ctxt = body[sp['cond'][0]:sp['cond'][1]]
